@@ -10,6 +10,8 @@ numbers not in the history), F-14c (symbol 3 consumes a delta) → `_partial` + 
 -/
 import Interceptor.Proofs.FeedbackRange
 import Interceptor.Proofs.RtpfbHistory
+import Interceptor.Proofs.FeedbackLru
+import Interceptor.Proofs.RtpfbSpec
 set_option linter.unusedVariables false
 namespace Interceptor.C09
 open Interceptor Interceptor.Feedback Interceptor.Feedback.Spec
@@ -240,6 +242,62 @@ theorem lru_evicts_oldest (h : Hist) (a : Ack) (hfull : h.length = lruSize)
   | nil => simp [lruSize] at hfull
   | cons x xs => simp [lruSize]
 
+
+/-- T6 `lru_readd_moves_to_front`: sending a packet again under a key that is still in the history
+refreshes the record AND moves it to the front of the eviction list (it becomes the newest entry;
+the length does not change); `get` then returns the re-sent packet's record. -/
+theorem lru_readd_moves_to_front (h : Hist) (a : Ack) (hex : h.any (sameKey a.ssrc a.seq) = true) :
+    add h a = a :: h.eraseP (sameKey a.ssrc a.seq) ∧ (add h a).head? = some a ∧
+    (add h a).length = h.length ∧ get (add h a) a.ssrc a.seq = some a := by
+  have e : add h a = a :: h.eraseP (sameKey a.ssrc a.seq) := by unfold add; rw [if_pos hex]
+  refine ⟨e, by rw [e]; rfl, ?_, ?_⟩
+  · rw [e, List.length_cons, List.length_eraseP, if_pos hex]
+    have : 0 < h.length := by
+      cases h with
+      | nil => simp at hex
+      | cons _ _ => simp
+    omega
+  · rw [e]; unfold FeedbackAdapter.get; simp [sameKey]
+
+/-- the history never holds two records with the same (SSRC, sequence number) key. -/
+theorem lru_keys_unique (h : Hist) (a : Ack) (hu : KeysUnique h) : KeysUnique (add h a) :=
+  add_keysUnique h a hu
+
+/-- ★ T6 `lru_recent_survives` (the clause behind the seeded defect m1): a packet that was just
+sent — for the first time OR AGAIN under a key already in the history — is still found, with the
+record of that last send, after up to 249 further sends of other keys; it is the age of the LAST
+send that counts. -/
+theorem lru_recent_survives (h : Hist) (a : Ack) (bs : List Ack) (hu : KeysUnique h)
+    (hl : h.length ≤ lruSize) (hn : bs.length < lruSize)
+    (hother : ∀ b ∈ bs, ¬ (b.ssrc = a.ssrc ∧ b.seq = a.seq)) :
+    get (bs.foldl add (add h a)) a.ssrc a.seq = some a := by
+  have hhead : a ∈ (add h a).take 1 := by
+    unfold add
+    split
+    · simp
+    · dsimp only
+      split
+      · rename_i hlen
+        simp only [List.length_cons] at hlen
+        cases h with
+        | nil => simp [lruSize] at hlen
+        | cons x xs => simp [List.dropLast]
+      · simp
+  have hne : ∀ b ∈ bs, sameKey b.ssrc b.seq a = false := by
+    intro b hb
+    cases hs : sameKey b.ssrc b.seq a with
+    | false => rfl
+    | true =>
+      have := (sameKey_iff _ _ _).mp hs
+      exact absurd ⟨this.1.symm, this.2.symm⟩ (hother b hb)
+  obtain ⟨hm, hu', _⟩ := foldl_add_keeps_recent a bs (add h a) 1 hhead (by unfold lruSize at *; omega)
+    (add_keysUnique h a hu) (add_length_le h a hl) hne
+  exact get_of_mem _ hu' a hm
+
+/-- non-vacuity: re-sending key (0, 1) moves it in front of key (0, 2) with the new record. -/
+example : add [⟨2, 0, 10, 5, 0, 0⟩, ⟨1, 0, 10, 4, 0, 0⟩] ⟨1, 0, 99, 6, 0, 0⟩
+    = [⟨1, 0, 99, 6, 0, 0⟩, ⟨2, 0, 10, 5, 0, 0⟩] := by decide
+
 end Adapter
 
 section Rtpfb
@@ -262,6 +320,27 @@ theorem within_declared_range (fb : Twcc) (acks : List RAck) (h : convertTWCC fb
     · simp at ha
   obtain ⟨j, _, h2, h3⟩ := hr a hmem
   exact ⟨j, h2, h3⟩
+
+/-- ★ T1 for rtpfb, `convertTWCC_eq_spec`: for EVERY parsed feedback (no hypothesis at all),
+`convertTWCC` returns exactly the acknowledgements of the spec decoder restricted to
+`[base, base + count)`: status, arrival time and sequence number of each number, in order; a
+reserved symbol yields nothing; feedback with fewer deltas than timed symbols yields nothing. -/
+theorem convertTWCC_eq_spec (fb : Twcc) :
+    convertTWCC fb = .ok (match decodeTWCC fb with
+      | none => []
+      | some l => l.filterMap toRAck) := by
+  obtain ⟨o, ho, _, hfin⟩ := chunkLoop_final fb fb.chunks 0 0 (refTime fb.ref)
+  unfold convertTWCC
+  rw [ho]
+  simp only [Nat.sub_zero, List.drop_zero] at hfin
+  have : (match decodeTWCC fb with | none => [] | some l => l.filterMap toRAck) = o.final := by
+    rw [hfin]
+    unfold decodeTWCC
+    cases walk (refTime fb.ref) (List.take fb.count (symbols fb.chunks)) fb.deltas with
+    | none => rfl
+    | some r => simp [specAcks, acksOf]
+  rw [this]
+  cases o <;> rfl
 
 /-- ★ T5 `report_once_in_order`: over ANY sequence of addOutgoing / onTWCCFeedback /
 onCCFBFeedback / buildReport on a fresh history, the concatenation of all reports is strictly
